@@ -820,7 +820,7 @@ func gen(state bool) func(rng *rand.Rand, tier string) []string {
 		ds := []int{2, 3, 8}
 		out := []string{fmt.Sprintf("cfg %s %d %d %d %s %d", kind, cmp, b2i(retry), rng.Intn(3), pats[rng.Intn(len(pats))], ds[rng.Intn(len(ds))])}
 		multi := rng.Intn(3) == 0
-		risky := tier == "thorough" && rng.Intn(40) == 0 // may clear the routine inside an exit latency (D16) or move a failed routine to a new context (D14)
+		risky := rng.Intn(3) == 0 // (D16 and D14 are fixed) may clear the routine inside an exit latency (D16) or move a failed routine to a new context (D14)
 		nwait, ngate := 0, 0
 		nasync := 0
 		as := func(s string) string {
@@ -870,10 +870,6 @@ func gen(state bool) func(rng *rand.Rand, tier string) []string {
 			r := b2i(rng.Intn(3) == 0)
 			if rng.Intn(12) == 0 {
 				c = 0
-			}
-			if retry && !risky && c != 0 && r == 0 {
-				// keep to one context unless restarting explicitly (the D14 pattern is a known finding with its own corpus entry)
-				c = 1
 			}
 			return fmt.Sprintf("setctx %d %d", c, r)
 		}
@@ -1009,11 +1005,11 @@ func init() {
 			{"cfg plain 0 0 1", "waitexited 0", "waitexited 1", "setctx 1 0", "setroutine 1", "settle", "waitexited 0", "waitexited 1", "restart", "exit old err 2", "settle", "quiesce", "exit old err 3", "quiesce", "waitexited 0", "cancelw 0", "quiesce"},
 			// an instance held before its final section while it is superseded twice
 			{"cfg plain 0 1 1 d 3", "setctx 1 0", "setroutine 1", "settle", "gate hold", "exit old err 1", "waitgate 0", "restart", "setroutine 2", "open 0", "settle", "probe", "quiesce", "exit old ok", "quiesce"},
-			// D16 (open): routine cleared and set again inside the exit latency of the first instance
+			// D16 (fixed 3b21148): routine cleared and set again inside the exit latency of the first instance
 			{"cfg plain 0 0 0", "setctx 1 0", "setroutine 1", "settle", "setroutine 0", "setroutine 2", "settle", "probe", "quiesce", "exit old ctx", "exit old ok", "quiesce"},
-			// D14 (open): a failed routine waiting for its retry is moved to another context
+			// D14 (fixed e3f7210): a failed routine waiting for its retry is moved to another context
 			{"cfg plain 0 1 1 ds 20", "setctx 1 0", "setroutine 1", "settle", "exit old err 1", "settle", "setctx 2 0", "advance", "exit old ok", "quiesce"},
-			// D17 (open): a retry timer that fired before stop() restarts a routine that has succeeded meanwhile
+			// D17 (fixed 6779104): a retry timer that fired before stop() restarts a routine that has succeeded meanwhile
 			{"cfg plain 0 1 1 ds 20", "setctx 1 0", "setroutine 1", "settle", "exit old err 1", "settle", "gate hold", "waitgate 0", "restart", "settle", "exit old ok", "settle", "open 0", "settle", "quiesce", "exit old ok", "quiesce"},
 			// a retry timer that has fired waits for the lock while RestartRoutine runs: it must leave the new instance alone
 			{"cfg plain 0 1 1 ds 20", "setctx 1 0", "setroutine 1", "settle", "exit old err 1", "settle", "gate hold", "waitgate 0", "restart", "settle", "open 0", "settle", "probe", "quiesce", "exit old ok", "quiesce"},
@@ -1028,7 +1024,7 @@ func init() {
 		Corpus: [][]string{
 			{"cfg state 1 0 1", "setsr 1", "setctx 1 0", "setstate 1", "settle", "setstate 2", "setstate 2", "swap 3", "swap nil", "getstate", "probe", "exit old ctx", "settle", "exit old ctx", "quiesce", "getstate", "exit old ok", "quiesce"},
 			{"cfg state 2 0 0", "setctx 1 0", "setstate 1", "setsr 2", "settle", "setstate 3", "swap 5", "swap 2", "getstate", "settle", "exit old ctx", "quiesce", "getstate", "setsr 1", "exit old ctx", "quiesce"},
-			// D16 (open), state variant
+			// D16 (fixed 3b21148), state variant
 			{"cfg state 1 0 0", "setctx 1 0", "setsr 1", "setstate 1", "settle", "setstate 0", "setstate 2", "settle", "probe", "quiesce", "exit old ctx", "exit old ok", "quiesce"},
 			// D4: a state change must wake WaitExited (the inner container's broadcast, under the inner lock)
 			{"cfg state 1 0 0", "setsr 1", "setctx 1 0", "setstate 1", "settle", "waitexited 1", "waitexited 0", "settle", "setstate 0", "settle", "quiesce", "exit old ctx", "quiesce", "cancelw 1", "quiesce"},
